@@ -847,7 +847,8 @@ class ParserField:
         if not options.mode:
             return False
         if callable(self.no_input):
-            return False
+            # the callable decides per value, but a field mode that excludes the current mode decides for every value
+            return bool(self.mode) and options.mode not in self.mode
         if isinstance(self.no_input, (str, list, set, tuple)):
             if options.mode in self.no_input:
                 return True
@@ -862,7 +863,7 @@ class ParserField:
         if not options.mode:
             return False
         if callable(self.no_output):
-            return False
+            return bool(self.mode) and options.mode not in self.mode
         if isinstance(self.no_output, (str, list, set, tuple)):
             if options.mode in self.no_output:
                 return True
